@@ -315,8 +315,11 @@ func scenario(x *explore.X, everyOffset bool) {
 	var helloK int
 	helloStall := scan(sp.name, "mitm-partial-hello-%d", &helloK)
 	if headStall {
-		prior = x.Choose("prior-exchanges", 2)
-		quiet = []time.Duration{0, headerTO + time.Second, idleTO - time.Millisecond}[x.Choose("quiet-before-head", 3)]
+		// 2: the first bytes of the stalled head arrive in the SAME segment as the previous (complete) request
+		prior = x.Choose("prior-exchanges", 3)
+		if prior != 2 {
+			quiet = []time.Duration{0, headerTO + time.Second, idleTO - time.Millisecond}[x.Choose("quiet-before-head", 3)]
+		}
 		finish = x.Choose("completes-head-1ms-before-limit", 2)
 	}
 	if helloStall {
@@ -334,7 +337,7 @@ func scenario(x *explore.X, everyOffset bool) {
 	for i := 0; i < npeers; i++ {
 		first := sp.name
 		if headStall {
-			first = []string{"no-byte", "between-requests"}[prior]
+			first = []string{"no-byte", "between-requests", "no-byte"}[prior]
 		}
 		if helloStall {
 			first = "mitm-after-connect-no-byte"
@@ -345,6 +348,12 @@ func scenario(x *explore.X, everyOffset bool) {
 				cleanup(x, w, c, stalled, nil)
 			}
 			return
+		}
+		if headStall && prior == 2 {
+			if pc = c.exchange(pc, "", []byte(c.head()+c.head()[:c.headCut(sp.name)])); pc == nil {
+				cleanup(x, w, c, stalled, nil)
+				return
+			}
 		}
 		stalled = append(stalled, pc)
 	}
@@ -386,7 +395,9 @@ func scenario(x *explore.X, everyOffset bool) {
 		}
 		t0 = time.Now()
 		for _, pc := range stalled {
-			c.request(pc, sp.name)
+			if prior != 2 {
+				c.request(pc, sp.name)
+			}
 		}
 	}
 	if d := time.Since(t0); d != 0 {
